@@ -116,8 +116,9 @@ class Mirror:
                 self.problems.append(("value-differs", f"{where}: {cfg!r} became {obj!r}"))
 
 
-def reach_configs(root):
-    """Distinct configurations reachable through parameters, pre-tasks and init tasks"""
+def reach_configs(root, through_producers=False):
+    """Distinct configurations reachable through parameters, pre-tasks and init tasks
+    (through_producers: also through the link from an output to the task that produced it)"""
     from experimaestro.core.objects import Config
 
     seen = {}
@@ -134,6 +135,8 @@ def reach_configs(root):
                 pre[id(p)] = p
                 stack.append(p)
             stack.extend(v.__xpm__.init_tasks)
+            if through_producers and v.__xpm__.task is not None and v.__xpm__.task is not v:
+                stack.append(v.__xpm__.task)
         elif isinstance(v, list):
             stack.extend(v)
         elif isinstance(v, dict):
@@ -250,7 +253,7 @@ def prop(ctx, case):
     # executions
     execs = [(i, oid, cname, snap) for i, (kind, oid, cname, snap) in enumerate(log) if kind == "execute"]
     lw_execs = [e for e in execs if e[2] == "LW"]
-    body = [e for e in execs if e[2] in ("T", "TOut", "TInner")]
+    body = [e for e in execs if e[2] in ("T", "TOut", "TInner", "TPass")]
 
     def sig_of(cfg):
         return (cfg.__xpm__.values.get("k"), id(cfg.__xpm__.values.get("cfg")))
@@ -260,7 +263,26 @@ def prop(ctx, case):
     expected_init = len(init_cfgs)
     want_ks = sorted([p.__xpm__.values.get("k") for p in pre.values()] + [c.__xpm__.values.get("k") for c in init_cfgs])
     got_ks = sorted(e[3].get("k") for e in lw_execs)
-    if got_ks != want_ks:
+    # pre-tasks attached to a *producing task* of an embedded output (reached only through the
+    # output's link to its task) may or may not be run when a consumer is loaded: at most once
+    _, pre_loose = reach_configs(root, through_producers=True)
+    optional = sorted(p.__xpm__.values.get("k") for pid, p in pre_loose.items() if pid not in pre)
+    extra = list(got_ks)
+    for k0 in want_ks:
+        if k0 in extra:
+            extra.remove(k0)
+    tolerated = list(optional)
+    ok_extra = True
+    for k0 in extra:
+        if k0 in tolerated:
+            tolerated.remove(k0)
+        else:
+            ok_extra = False
+    missing_any = any(got_ks.count(k0) < want_ks.count(k0) for k0 in set(want_ks))
+    if optional:
+        labels.append("pre-task-of-producer")
+        expected_pre = expected_pre + (len(got_ks) - len(want_ks) if ok_extra and not missing_any else 0)
+    if missing_any or not ok_extra:
         kind = "missing" if len(got_ks) < len(want_ks) else ("repeated" if len(got_ks) > len(want_ks) else "other")
         ctx.violation(
             f"lightweight-executions:{kind}",
